@@ -222,34 +222,12 @@ theorem recvRecvHeaders_lt (s : Streams) (k : Nat) (h : HeadersIn) : LT [k] s (s
         · exact h1
       lt_auto
 
-/-- frame of one projection of every stream -/
-def SPr {α : Type} (P : Stream → α) (s s' : Streams) : Prop := ∀ j, P (s'.stream j) = P (s.stream j)
-theorem SPr.refl {α : Type} (P : Stream → α) (s : Streams) : SPr P s s := fun _ => rfl
-theorem SPr.trans {α : Type} {P : Stream → α} {a b c : Streams} (h1 : SPr P a b) (h2 : SPr P b c) : SPr P a c :=
-  fun j => (h2 j).trans (h1 j)
-theorem SPr.of_store {α : Type} {P : Stream → α} {s s' : Streams} (h : s'.store = s.store) : SPr P s s' :=
-  fun j => by unfold Streams.stream; rw [h]
-theorem SPr.setStream {α : Type} {P : Stream → α} (s : Streams) (k : Nat) (st' : Stream) (hk : st'.key = k)
-    (h : P st' = P (s.stream k)) : SPr P s (s.setStream st') := by
-  intro j
-  rcases setStream_stream s st' j with e | ⟨e, hj, _⟩
-  · rw [e]
-  · rw [e, hj, hk]; exact h
-theorem SPr.modStream {α : Type} {P : Stream → α} (s : Streams) (k : Nat) (f : Stream → Stream) (hk : ∀ x, (f x).key = x.key)
-    (h : ∀ x, P (f x) = P x) : SPr P s (s.modStream k f) := by
-  unfold Streams.modStream
-  split
-  · next st hst =>
-    refine SPr.setStream s k _ ((hk st).trans (get?_key hst)) ?_
-    rw [stream_of_get? hst]; exact h st
-  · exact .of_store (panic_store _ _)
-
 theorem decContentLength_spec {x y : Stream} {n : Nat} (h : x.decContentLength n = some y) :
     Inert x y ∧ y.recvFlow = x.recvFlow := by
   unfold Stream.decContentLength at h
   split at h
   · split at h
-    · cases h; exact ⟨⟨rfl, rfl, id⟩, rfl⟩
+    · cases h; exact ⟨⟨rfl, rfl, rfl, rfl, fun h => h⟩, rfl⟩
     · cases h
   · split at h
     · cases h
